@@ -759,6 +759,17 @@ def d3_table(ctx):
         from rules import c08
         return c08.slice_boundaries_ok(ctx)
 
+    def offset_slice(ctx, site):
+        # input[offset()..] / input[a..offset()]: every bound is a value of offset(), which bump() keeps on a character boundary
+        fn = site['f']
+        if len(site['term']['args']) != 2:
+            return False, 'not covered'
+        rng = sym(fn, site['term']['args'][1])
+        s_ = str(rng)
+        if 'Range' in s_ and "Tokenizer::<'a>::offset" in s_ and 'binop' not in s_:
+            return lexer_boundaries(ctx, site)
+        return False, 'not covered'
+
     def nth_guard(ctx, site):
         fn = site['f']
         a = sym(fn, site['term']['args'][0])
@@ -898,6 +909,8 @@ def d3_table(ctx):
         ('symbols::SymbolTable::leave_scope', None, 'R09.1', symbols_pairing),
         ('symbols::SymbolTable::resolve', 'index', 'R09.1', symbols_pairing),
         ('symbols::SymbolTable::reset_to_global', 'index_mut', 'R09.1', symbols_pairing),
+        ('<lexer::Tokenizer*', 'index', 'local+R08.3', offset_slice),
+        ('lexer::Tokenizer*', 'index', 'local+R08.3', offset_slice),
         ('symbols::*', 'unwrap', 'local+R09.1', nonempty_stack),
         ('object::Object::as_f64', 'assert_failed', 'tag-checked callers', tag_checked_callers),
         ('object::Object::as_str', 'assert_failed', 'tag-checked callers', tag_checked_callers),
@@ -966,7 +979,7 @@ def verdict_for(ctx, s, rows=None, cache=None):
                 ok, why = cache[ck]
                 if rule.startswith('local') or rule == 'R02.6/R17.1':
                     ok, why = ver(ctx, s)
-                if not ok and rule == 'R02.6/R17.1' and 'not covered' in why:
+                if not ok and why == 'not covered':
                     continue
                 verdict = (ok, 'D3[%s]: %s' % (rule, why))
                 break
